@@ -238,6 +238,9 @@ func (e *executor) processInput(workflow *Workflow) (schema.Scope, error) {
 		return nil, &ErrInvalidWorkflow{fmt.Errorf(
 			"invalid workflow input section (root object '%s' is not among the objects)", typedInput.Root())}
 	}
+	if err := validateRootObject(typedInput); err != nil {
+		return nil, &ErrInvalidWorkflow{fmt.Errorf("invalid workflow input section (%w)", err)}
+	}
 	// Validate the defaults on a throw-away copy, because decoded defaults are cached in the scope.
 	if scopeCopy, err := schema.DescribeScope().Unserialize(workflow.Input); err == nil {
 		if err := validateDefaults(scopeCopy.(schema.Scope)); err != nil {
@@ -246,6 +249,18 @@ func (e *executor) processInput(workflow *Workflow) (schema.Scope, error) {
 	}
 	typedInput.ApplySelf()
 	return typedInput, nil
+}
+
+// validateRootObject makes sure the root object can be obtained. The schema library panics if,
+// for example, the ID of the root object differs from the key it is stored under.
+func validateRootObject(scope schema.Scope) (err error) {
+	defer func() {
+		if r := recover(); r != nil {
+			err = fmt.Errorf("%v", r)
+		}
+	}()
+	scope.RootObject()
+	return nil
 }
 
 // validateDefaults makes sure the default values declared in the scope can be decoded. The
